@@ -39,7 +39,7 @@ CLAIMS = {
  "C12": ("exploration", "Systematic enumeration with the model as the source of the alphabet: every message type/kind of Signalling.tla's alphabet in five membership states with independently ill-typed fields, raw garbage, the regression behaviours of F2/F13/F14, executed against the real server in a child process; a dead process (R1), a request without response (R2), a closed bystander (R3) is a violation.  HTTP and packet-parser tables are added by httpapi.py / rewrite.py.",
          "crash-freedom only for the enumerated and sampled inputs; this is exploration, not proof", "enumeration from the TLA+ alphabet + black-box execution"),
  "C14": ("model_checking", SIG + " C14 clauses: user events only to members, no duplicate add / unknown delete, no cross-group leak, the server's own member list equals what clients were told, and at quiescence every member's view equals the membership with usernames and permissions.",
-         "sequential driver: reordering of the detached change broadcasts (F15) is not exercised"),
+         "sequential driver plus pipelined behaviours judged at quiescence; the overtaking of two change broadcasts (F15, repaired) is forced on the real server by a delay at a hook"),
  "C15": ("model_checking", SIG + " C15 clauses: source/username authentic, privileged flag = sender is operator, recipients exactly as addressed, noecho, spoof rejected and closes only the offender, history replay to a joiner equals the last <=50 broadcast chats minus what clearchat designated.",
          "history age is not exercised (only the count bound)"),
  "C08": ("model_checking", "Auth.tla's password table (12 960 rows: entry kind x wildcard kind x credential x role x allow-recording x unrestricted-tokens) and hash table (432 rows of administration-tool parameters) are enumerated completely by TLC with the decision the property demands; every row is materialised (real JSON descriptions, real plain/pbkdf2/bcrypt records, galenectl's real makePassword) and decided by the real Description.GetPermission / Password.Match; the rights in the real server's joined messages after any moderation history are judged by SigMonitor (Signalling.tla, exhaustive at 3 stimuli) against the same role table.",
